@@ -133,9 +133,13 @@ fn post_ok(local: &Files, hub_before: &Files, hub_after: &Files, r: &RunRes) -> 
 fn io_fault_part(thorough: bool, evals: &AtomicU64) -> Vec<Violation> {
     let errnos: Vec<i32> = if thorough { vec![13, 28, 5] } else { vec![13] };
     let cases: Vec<(&str, &str)> = vec![("fX+dgZ", "hub-f"), ("fY", "hub-h")];
-    let jobs: Vec<(&str, &str, i32)> = cases.iter().flat_map(|(l, hb)| errnos.iter().map(move |e| (*l, *hb, *e))).collect();
+    // (local, hub, errno, faults on the CLIENT's reads of its local tree instead of the hub's calls)
+    let mut jobs: Vec<(&str, &str, i32, bool)> = cases.iter().flat_map(|(l, hb)| errnos.iter().map(move |e| (*l, *hb, *e, false))).collect();
+    for (l, hb) in &cases {
+        jobs.push((*l, *hb, 13, true));
+    }
     jobs.par_iter()
-        .flat_map_iter(|&(lname, hb, errno)| {
+        .flat_map_iter(|&(lname, hb, errno, client_side)| {
             let mut out = Vec::new();
             let run = |k: Option<u64>| -> (Files, Files, Files, RunRes, u64) {
                 let sc = Scratch::new("c13io");
@@ -147,7 +151,7 @@ fn io_fault_part(thorough: bool, evals: &AtomicU64) -> Vec<Violation> {
                 let before = live(&snapshot_hub(&hub));
                 let logp = sc.path("shim.log");
                 let mut c = std::process::Command::new(cli_bin());
-                c.arg("hub-sync").arg(&local).arg(&hub).env("RUST_LOG", "off").env("TOKIO_WORKER_THREADS", "1").env("HOME", sc.path("home")).env("LD_PRELOAD", crate::e3::SHIM).env("VSHIM_ROOT", &hub).env("VSHIM_LOG", &logp);
+                c.arg("hub-sync").arg(&local).arg(&hub).env("RUST_LOG", "off").env("TOKIO_WORKER_THREADS", "1").env("HOME", sc.path("home")).env("LD_PRELOAD", crate::e3::SHIM).env("VSHIM_ROOT", if client_side { &local } else { &hub }).env("VSHIM_COUNT_READS", if client_side { "1" } else { "0" }).env("VSHIM_LOG", &logp);
                 match k {
                     Some(k) => {
                         c.env("VSHIM_MODE", "inject").env("VSHIM_KILL_AT", u64::MAX.to_string()).env("VSHIM_FAIL_AT", k.to_string()).env("VSHIM_FAIL_ERRNO", errno.to_string());
@@ -168,7 +172,7 @@ fn io_fault_part(thorough: bool, evals: &AtomicU64) -> Vec<Violation> {
             for k in 1..=n {
                 let (lt, before, after, r, _) = run(Some(k));
                 if let Some((kind, m)) = post_ok(&lt, &before, &after, &r) {
-                    out.push(Violation::new(&kind, format!("hub {hb}, local {lname}, the hub's mutating libc call #{k} failing with errno {errno}: {m}; stdout: {}; stderr: {}", r.stdout.lines().last().unwrap_or(""), r.stderr.lines().last().unwrap_or("")), json!({"part":"io_fault","hub":hb,"local":lname,"k":k,"errno":errno})).with("cause", json!("io_error")));
+                    out.push(Violation::new(&kind, format!("hub {hb}, local {lname}, {} libc call #{k} failing with errno {errno}: {m}; stdout: {}; stderr: {}", if client_side { "the client's (reads of the local tree counted)" } else { "the hub's mutating" }, r.stdout.lines().last().unwrap_or(""), r.stderr.lines().last().unwrap_or("")), json!({"part":"io_fault","hub":hb,"local":lname,"k":k,"errno":errno,"client_side":client_side})).with("cause", json!("io_error")));
                     if out.len() >= 2 {
                         break;
                     }
